@@ -82,6 +82,15 @@ func runC15(tier string) int {
 			r.Report(harness.Violation{Sig: "C15:rejected", Summary: fmt.Sprintf("rejected: %v %s\n  source: %q", res.Err, firstLine(res.Panic), src), Replay: map[string]interface{}{"source": src}})
 			return
 		}
+		// the same file with line markers on and an input path that contains colons: markers are extra lines, nothing else changes
+		// (so every scope judged below is the scope with markers, too)
+		if lmRes := comp.Compile(src, comp.Opts{Optimize: opt, Switches: map[string]string{"PV": pv}, LineMarkers: true, Path: "C:\\maps\\a:b\\scripts.pory"}); lmRes.Err != nil || dropMarkerLines(lmRes.Out) != res.Out {
+			s2 := src
+			r.Report(harness.Violation{Sig: "C15:with-line-markers", Summary: fmt.Sprintf("with line markers and the path C:\\maps\\a:b\\scripts.pory the non-marker lines differ (%v): %s\n  modifiers script/text/movement/mart/mapscripts=%q label=%q optimize=%v", lmRes.Err, firstDiff(dropMarkerLines(lmRes.Out), res.Out), m, lm, opt), Replay: map[string]interface{}{"source": src, "optimize": opt, "output": res.Out, "output_with_markers": lmRes.Out},
+				Recheck: func() bool {
+					return dropMarkerLines(comp.Compile(s2, comp.Opts{Optimize: opt, Switches: map[string]string{"PV": pv}, LineMarkers: true, Path: "C:\\maps\\a:b\\scripts.pory"}).Out) != res.Out
+				}})
+		}
 		want := map[string]bool{ // name -> exported?
 			"S": c15Global(m[0], true), ns[0]: c15Global(m[1], true), ns[1]: c15Global(m[2], false), ns[2]: c15Global(m[3], false), "Map": c15Global(m[4], true),
 			"TLong": false, "TLong2": true, "tlong": true, "TLONG2": false, "s2": true, "MAP": true, "map": false, "PL": pv == "A", "PM": pv != "A", "L1": c15Global(lm, false), "L2": false, "L3": c15Global(lm, false), "S2": true,
@@ -278,5 +287,5 @@ func runC15(tier string) int {
 	}
 	r.Assume("documented defaults: script, text, mapscripts global; movement, mart local; labels inside scripts local; every generated label local")
 	return r.Finish(r.Get("evaluations"), r.Get("nontrivial"),
-		"the full finite product {script, text, movement, mart, mapscripts} x {no modifier, (global), (local)} (3^5) x in-script label modifier (3) x 14 statement orders (every rotation, forwards and backwards; two moves() lists occur twice in the file; two multi-part texts end in the lines of shorter texts; five statements whose names differ from other names of the file only in letter case and have the opposite scope) x optimize on/off x which alternative of two poryswitches (the same label name with different modifiers in the two cases) is compiled x 3 sets of names for the explicit data statements (plain, and shaped like generated hoisted / sub-label / map-script names of scripts that do not exist); the file forces every generated label kind (sub-labels of if/while/switch, hoisted text and movement, inline map script, table, table inline script and their hoisted data); every label definition of the output is classified by the naming scheme and must have the expected scope; plus every identifier-like literal of the compiler's own source as the name of each statement kind and of a label, under every modifier; plus every program of the control-flow families (C01 / C03 / C04 bounds) x script modifier x optimize: script label per modifier, every other label local; plus, for every statement template, a second script named S_1 .. S_9 (like a sub-label of the first) before / after it under every modifier: wherever every label is still defined once it is exported like any script; non-trivial = at least one explicit modifier")
+		"the full finite product {script, text, movement, mart, mapscripts} x {no modifier, (global), (local)} (3^5) x in-script label modifier (3) x 14 statement orders (every rotation, forwards and backwards; two moves() lists occur twice in the file; two multi-part texts end in the lines of shorter texts; five statements whose names differ from other names of the file only in letter case and have the opposite scope) x optimize on/off x which alternative of two poryswitches (the same label name with different modifiers in the two cases) is compiled x 3 sets of names for the explicit data statements (plain, and shaped like generated hoisted / sub-label / map-script names of scripts that do not exist); the file forces every generated label kind (sub-labels of if/while/switch, hoisted text and movement, inline map script, table, table inline script and their hoisted data); every label definition of the output is classified by the naming scheme and must have the expected scope, and the same file compiled with line markers and an input path containing colons must give the same non-marker lines; plus every identifier-like literal of the compiler's own source as the name of each statement kind and of a label, under every modifier; plus every program of the control-flow families (C01 / C03 / C04 bounds) x script modifier x optimize: script label per modifier, every other label local; plus, for every statement template, a second script named S_1 .. S_9 (like a sub-label of the first) before / after it under every modifier: wherever every label is still defined once it is exported like any script; non-trivial = at least one explicit modifier")
 }
